@@ -35,6 +35,7 @@ type world struct {
 	csErr    string
 	expected map[int]int // state id -> number of increments performed on it
 	multiRun bool        // several runs share node names: the one-state-per-unit check does not apply
+	live     []*St       // every state object a critical section was entered on (a restored state is not a generated one)
 }
 
 // The world's own bookkeeping is shared by harness code running on different goroutines: vsched.HLock is a
@@ -80,6 +81,15 @@ func (w *world) section(who string, s *St, yield bool) {
 		w.idErr = fmt.Sprintf("%s saw state #%d and later state #%d", who, prev, s.ID)
 	}
 	w.seenBy[who] = s.ID
+	known := false
+	for _, l := range w.live {
+		if l == s {
+			known = true
+		}
+	}
+	if !known {
+		w.live = append(w.live, s)
+	}
 	vsched.HUnlock()
 	c := s.einoGuardedEnter(who)
 	if yield {
@@ -310,6 +320,27 @@ func (sp *spec) build() (func(), func(x *vsched.Exec) (string, error)) {
 					vsched.HUnlock()
 				})
 			}
+		case "wfresume":
+			// eager Workflow resumed from a checkpoint with TWO restored tasks (a, b: both interrupt-before); c follows b
+			// while a may still be running: the restored tasks and everything scheduled later share one state AND one lock
+			store := &memStore{m: map[string][]byte{}}
+			wf := compose.NewWorkflow[Val, Val](compose.WithGenLocalState(w.gen("")))
+			wf.AddLambdaNode("a", sp.lambda(w, "", "a", seen), sp.nodeOpts(w, "", "a")...).AddInput(compose.START)
+			wf.AddLambdaNode("b", sp.lambda(w, "", "b", seen), sp.nodeOpts(w, "", "b")...).AddInput(compose.START)
+			wf.AddLambdaNode("c", sp.lambda(w, "", "c", seen), sp.nodeOpts(w, "", "c")...).AddInput("b")
+			wf.End().AddInput("a", compose.ToField("a")).AddInput("c", compose.ToField("c"))
+			r, err := wf.Compile(context.Background(), compose.WithCheckPointStore(store), compose.WithInterruptBeforeNodes([]string{"a", "b"}))
+			if err != nil {
+				errs = append(errs, err)
+				return
+			}
+			_, err = run(r, sp.call, Val{"in": "x"}, compose.WithCheckPointID("cp"))
+			if _, isInt := compose.ExtractInterruptInfo(err); !isInt {
+				errs = append(errs, fmt.Errorf("expected an interrupt before a and b, got %v", err))
+				return
+			}
+			v, err := run(r, sp.call, Val{"in": "ignored"}, compose.WithCheckPointID("cp"))
+			results, errs = append(results, v), append(errs, err)
 		case "resume":
 			// state is carried unchanged across interrupt/resume, apart from the caller's modification
 			store := &memStore{m: map[string][]byte{}}
@@ -376,7 +407,22 @@ func (sp *spec) build() (func(), func(x *vsched.Exec) (string, error)) {
 			return "", fmt.Errorf("state object not stable: %s", w.idErr)
 		}
 		// (1) no lost update; (2) critical sections never overlap; per state object
-		for _, s := range w.states {
+		all := append([]*St{}, w.states...)
+		for _, l := range w.live {
+			dup := false
+			for _, x := range all {
+				if x == l {
+					dup = true
+				}
+			}
+			if !dup {
+				all = append(all, l)
+			}
+		}
+		for _, s := range all {
+			if sp.shape == "wfresume" && len(s.Log) == 0 {
+				continue // the generated state of the interrupted first call: nothing ran on it
+			}
 			if s.Counter%100 != w.expected[s.ID] && sp.shape != "resume" {
 				return "", fmt.Errorf("lost update on state #%d: %d increments were performed, counter is %d (log %v)", s.ID, w.expected[s.ID], s.Counter, s.Log)
 			}
@@ -479,6 +525,8 @@ func (sp *spec) build() (func(), func(x *vsched.Exec) (string, error)) {
 				keys = append(keys, "c")
 			case "nested":
 				keys = []string{"a"}
+			case "wfresume":
+				keys = []string{"a", "c"}
 			}
 			for _, k := range keys {
 				if sp.post {
@@ -523,7 +571,7 @@ func (sp *spec) build() (func(), func(x *vsched.Exec) (string, error)) {
 
 func main() {
 	c := harness.Init("C11")
-	c.Res.Rule = "scenario = stateful graph (Pregel / all-predecessor / eager Workflow) with 2-3 parallel nodes x which state users are present (state pre-handlers, post-handlers, ProcessState in node bodies; each a read-yield-write increment with enter/exit markers in the state's log) x shape (fan-out of 2 or 3, fan-out of 2 with STREAM state handlers that return lazily converted streams whose convert function calls ProcessState, stateful nested graph next to a parent node, two concurrent runs of one compiled graph, interrupt-after + resume with a StateModifier) x Invoke/Stream; every interleaving of executor goroutines, run loop and callers within the preemption bound, both map orders; distinct/non-trivial = distinct scheduling signatures of scenarios with >= 2 of them"
+	c.Res.Rule = "scenario = stateful graph (Pregel / all-predecessor / eager Workflow) with 2-3 parallel nodes x which state users are present (state pre-handlers, post-handlers, ProcessState in node bodies; each a read-yield-write increment with enter/exit markers in the state's log) x shape (fan-out of 2 or 3, fan-out of 2 with STREAM state handlers that return lazily converted streams whose convert function calls ProcessState, stateful nested graph next to a parent node, two concurrent runs of one compiled graph, interrupt-after + resume with a StateModifier, an eager Workflow resumed with two restored tasks and a successor that starts while one of them is still running) x Invoke/Stream; every interleaving of executor goroutines, run loop and callers within the preemption bound, both map orders; distinct/non-trivial = distinct scheduling signatures of scenarios with >= 2 of them"
 	c.Res.Assumptions = []string{
 		"sequential consistency at synchronisation granularity; critical-section bodies are atomic apart from their explicit yield",
 		"no happens-before state caching: a missing lock makes the state plain shared memory",
@@ -538,9 +586,12 @@ func main() {
 	}
 	type users struct{ pre, post, process bool }
 	us := []users{{false, false, true}, {true, true, false}, {true, true, true}, {false, true, true}, {true, false, true}}
-	for _, shape := range []string{"fan2", "fan2lazy", "nested", "tworuns", "resume", "fan3"} {
+	for _, shape := range []string{"fan2", "fan2lazy", "nested", "tworuns", "resume", "wfresume", "fan3"} {
 		for _, mode := range []string{"pregel", "dag", "workflow"} {
 			if mode == "workflow" && (shape == "nested" || shape == "resume") {
+				continue
+			}
+			if shape == "wfresume" && mode != "workflow" {
 				continue
 			}
 			for _, u := range us {
